@@ -978,13 +978,23 @@ def exhaustive(ctx, dendropy, rng, pending):
                     if Snap(w1).n > 14:
                         continue
                     second = expand_targets(w1, rng)
+                    after1 = Snap(w1)
                     for op2 in second:
                         if ctx.out_of_time() or len(ctx.failures) >= MAX_FAILURES:
                             return d1, d2
                         if op1["op"] in HUNG or op2["op"] in HUNG:
                             continue
-                        # rebuild the state after op1 from the start (operations mutate in place)
-                        run_history(ctx, dendropy, dict(start, ops=[op1, op2]), pending, single_check=True)
+                        # operations mutate in place: redo op1 on fresh objects, then op2 on those very objects
+                        w = World(dendropy, start["tree"], rooted, None, start["nbits"])
+                        h = History(start["tree"], rooted, None, w.nbits)
+                        if not do_step(_Quiet(), w, dict(op1), h, []):
+                            continue
+                        again = Snap(w)
+                        if again.render != after1.render or again.rooted != after1.rooted:
+                            # op1 is not a function of the tree alone (reroot_at_midpoint breaks ties by object hash)
+                            ctx.count("first_step_not_reproducible:" + op1["op"])
+                            break
+                        do_step(ctx, w, dict(op2), h, pending, single_check=True)
                         d2 += 1
                         if len(pending) >= 3000:
                             flush(ctx, pending)
